@@ -400,7 +400,9 @@ fn short(s: &str) -> String {
 }
 
 fn panic_cls(loc: &str) -> String {
-    format!("C04:panic-{}", loc)
+    // class tokens become file names of replays: keep only the basename of the source file (no '/')
+    let base = loc.rsplit('/').next().unwrap_or(loc);
+    format!("C04:panic-{}", base)
 }
 
 /// flute's observation of a datagram vs the independent reading of it
